@@ -472,34 +472,23 @@ class WBEMSubscriptionManager:
         # Validate server_id
         server = self._get_server(server_id)
 
-        # Delete any instances we recorded to be cleaned up
+        # Delete any instances we recorded to be cleaned up. The entries for
+        # the server are only removed once all instances have been deleted, so
+        # that a failing deletion leaves the server registered with consistent
+        # lists of the owned instances that still exist.
 
-        if server_id in self._owned_subscriptions:
-            inst_list = self._owned_subscriptions[server_id]
+        for owned_dict in (self._owned_subscriptions, self._owned_filters,
+                           self._owned_destinations):
+            inst_list = owned_dict.get(server_id, [])
             # We iterate backwards because we change the list
             for i in range(len(inst_list) - 1, -1, -1):
                 inst = inst_list[i]
                 server.conn.DeleteInstance(inst.path)
                 del inst_list[i]
-            del self._owned_subscriptions[server_id]
 
-        if server_id in self._owned_filters:
-            inst_list = self._owned_filters[server_id]
-            # We iterate backwards because we change the list
-            for i in range(len(inst_list) - 1, -1, -1):
-                inst = inst_list[i]
-                server.conn.DeleteInstance(inst.path)
-                del inst_list[i]
-            del self._owned_filters[server_id]
-
-        if server_id in self._owned_destinations:
-            inst_list = self._owned_destinations[server_id]
-            # We iterate backwards because we change the list
-            for i in range(len(inst_list) - 1, -1, -1):
-                inst = inst_list[i]
-                server.conn.DeleteInstance(inst.path)
-                del inst_list[i]
-            del self._owned_destinations[server_id]
+        self._owned_subscriptions.pop(server_id, None)
+        self._owned_filters.pop(server_id, None)
+        self._owned_destinations.pop(server_id, None)
 
         # Remove server from this listener
         del self._servers[server_id]
